@@ -712,3 +712,82 @@ def pred_C14(model, params, run):
 PREDS = {"C01": pred_C01, "C02": pred_C02, "C03": pred_C03, "C04": pred_C04, "C05": pred_C05,
          "C06": pred_C06, "C07": pred_C07, "C08": pred_C08, "C10": pred_C10, "C13": pred_C13,
          "C14": pred_C14}
+
+
+# ---- C12 on simulation traces (FS-only models) ---------------------------------------------------
+
+def pred_C12(model, params, run):
+    out = []
+    if any(d != FS for tk in model["tasks"] for _, d in tk["inputs"]) or model["nT"] == 0:
+        return out
+    from purestream import cpm
+    for b, st in run["snaps"]:
+        if b != "updated":
+            continue
+        if any(F(x) < 0 for x in st["rem"]):
+            out.append(viol("C12", "negative remaining work at a PERT update of an FS-only model", time=st["time"]))
+            return out
+        est, eft, lst, lft, cpl = cpm(model, st["rem"], st["time"])
+        got = ([F(x) for x in st["est"]], [F(x) for x in st["eft"]], [F(x) for x in st["lst"]], [F(x) for x in st["lft"]], F(st["cpl"]))
+        if got != (est, eft, lst, lft, cpl):
+            which = [nm for nm, a, b2 in zip(("est", "eft", "lst", "lft", "cpl"), got, (est, eft, lst, lft, cpl)) if a != b2]
+            out.append(viol("C12", "PERT values differ from the critical-path computation in %s" % ",".join(which), time=st["time"]))
+            return out
+    return out
+
+
+# ---- C11: allocation never inverts the priority order (non-facility tasks) -----------------------
+
+def task_key(model, st, rule, t):
+    tk = model["tasks"][t]
+    if rule == 0:
+        return F(st["lst"][t]) - F(st["est"][t]), False
+    if rule == 1:
+        return F(st["est"][t]), False
+    if rule == 2:
+        return F(tk["work"]), False
+    if rule == 3:
+        return F(tk["work"]), True
+    if rule == 4:
+        return Fr(sum(1 for s in st["tState"][t] if s == READY)), True
+    if rule == 5:
+        return F(st["rem"][t]), True
+    if rule == 6:
+        return F(st["rem"][t]), False
+    return Fr(0), rule == 7
+
+
+def pred_C11(model, params, run):
+    out = []
+    for it in steps(run):
+        if "allocated" not in it or "absence" not in it:
+            continue
+        pre, post = it["absence"], it["allocated"]
+        if pre["time"] in params["absence"]:
+            continue
+        cands = [t for t in range(model["nT"]) if pre["tstate"][t] in (READY, WORKING)]
+        keyed = [(task_key(model, pre, params["rule"], t), t) for t in cands]
+        desc = keyed[0][0][1] if keyed else False
+        order = [t for _, t in sorted(keyed, key=lambda kt: (-kt[0][0] if desc else kt[0][0]))]  # stable
+        pos = {t: i for i, t in enumerate(order)}
+        for t2 in order:
+            tk2 = model["tasks"][t2]
+            if tk2["needFac"] or tk2["isAuto"]:
+                continue
+            added = [w for w in post["allocW"][t2] if w not in pre["allocW"][t2]]
+            for w in added:
+                ws = model["workers"][w]
+                for t1 in order[:pos[t2]]:
+                    tk1 = model["tasks"][t1]
+                    if tk1["needFac"] or tk1["isAuto"]:
+                        continue
+                    if has_skill(ws["skills"], tk1["name"]) and t1 in model["teams"][ws["team"]]["targets"] \
+                            and can_add_worker(model, post, t1, w):
+                        out.append(viol("C11", "worker %d given to task %d although higher-priority task %d could still take it" % (w, t2, t1),
+                                        time=pre["time"]))
+                        return out
+    return out
+
+
+PREDS["C12"] = pred_C12
+PREDS["C11"] = pred_C11
